@@ -8,6 +8,8 @@ CONSTANTS
     MaxLifecycle = 3
     Dedup = TRUE
     FailCleansUp = TRUE
+    MaxDeaths = 0
+    StopAtFirstError = FALSE
 SYMMETRY MCSymmetry
 INVARIANTS
     TypeOK
